@@ -2,6 +2,7 @@ package sim
 
 import (
 	"fmt"
+	"sort"
 	"strings"
 	"time"
 
@@ -26,6 +27,31 @@ func specPermits(s specState, t specTrans) (specTrans, bool) {
 		}
 	}
 	return specTrans{}, false
+}
+
+// specPath returns a shortest sequence of permitted transitions from the
+// initial state to target (BFS in sorted order, deterministic).
+func specPath(sp *specProto, target string) ([]specTrans, bool) {
+	type node struct {
+		st   string
+		path []specTrans
+	}
+	queue := []node{{sp.Init, nil}}
+	seen := map[string]bool{sp.Init: true}
+	for len(queue) > 0 {
+		n := queue[0]
+		queue = queue[1:]
+		if n.st == target {
+			return n.path, true
+		}
+		for _, t := range sp.States[n.st].Trans {
+			if !seen[t.To] {
+				seen[t.To] = true
+				queue = append(queue, node{t.To, append(append([]specTrans(nil), n.path...), t)})
+			}
+		}
+	}
+	return nil, false
 }
 
 func specWalkSetup(s *rt.Sim, tier string) func() {
@@ -76,6 +102,27 @@ func specWalkSetup(s *rt.Sim, tier string) func() {
 		}
 		ss := sp.Init
 		steps := 1 + pick("cfg", 14)
+		// half of the runs aim at one (state, message) pair chosen uniformly from
+		// all pairs of the specification, reached by a shortest permitted path, so
+		// that every pair is tried many times per check; the other half walk at random
+		var forced []specTrans
+		if chance("cfg", 1, 2) {
+			var names []string
+			for n, st := range sp.States {
+				if st.Agency != agNone {
+					names = append(names, n)
+				}
+			}
+			sort.Strings(names)
+			target := names[pick("cfg", len(names))]
+			if path, ok := specPath(sp, target); ok {
+				forced = append(path, sp.AllMsgs[pick("cfg", len(sp.AllMsgs))])
+				if steps < len(forced) {
+					steps = len(forced)
+				}
+				rt.Hit("specwalk.targeted")
+			}
+		}
 		var trail []string
 		for step := 0; step < steps; step++ {
 			st := sp.States[ss]
@@ -83,7 +130,9 @@ func specWalkSetup(s *rt.Sim, tier string) func() {
 				break
 			}
 			var t specTrans
-			if len(st.Trans) > 0 && pick("op", 10) < 6 {
+			if step < len(forced) {
+				t = forced[step]
+			} else if len(st.Trans) > 0 && pick("op", 10) < 6 {
 				t = st.Trans[pick("op", len(st.Trans))]
 			} else {
 				t = sp.AllMsgs[pick("op", len(sp.AllMsgs))]
